@@ -61,6 +61,10 @@ class Scenario:
             node = s.partition(cfg["n"], timeout=cfg.get("timeout"), **kw)
         elif k == "latest":
             node = s.latest()
+            if cfg.get("tail") == "zip_latest":
+                # latest as the lossless input of a zip_latest whose other input already has a value
+                self.other = Stream(asynchronous=True)
+                self.tail = node.zip_latest(self.other).map(lambda t: t[0])
         elif k == "zip":
             node = streamz.zip(*self.sources, maxsize=cfg["maxsize"])
         elif k == "union":
@@ -117,8 +121,9 @@ class Scenario:
             if len(modes) > 2:
                 self.probes.append(aprobe.Probe(s, self.log, mode=modes[2], pid=3))
         else:
-            self.probes = [aprobe.Probe(node, self.log, mode=m, pid=i + 1) for i, m in enumerate(cfg.get("cons", ["future"]))]
-        if k in ("j_zip_latest", "j_combine_latest"):
+            self.probes = [aprobe.Probe(getattr(self, "tail", node), self.log, mode=m, pid=i + 1)
+                           for i, m in enumerate(cfg.get("cons", ["future"]))]
+        if k in ("j_zip_latest", "j_combine_latest") or cfg.get("tail") == "zip_latest":
             self.other.emit(0)              # the other input has a value before any consumer exists
         self.feeders = None
         if cfg.get("feeder") == "plain":
@@ -193,6 +198,11 @@ class Scenario:
             self.disconnected = True
             log.add("disconnect")
             loop.do(self.sources[0].disconnect, self.node)
+        elif c == "Y":
+            # ... and given back (upstream.connect(node)): the node goes on as if nothing had happened
+            self.disconnected = False
+            log.add("reconnect")
+            loop.do(self.sources[0].connect, self.node)
         elif c == "g":
             live = [(x, f) for x, f in self.tasks if not f.done()]
             if live:
@@ -249,6 +259,8 @@ class Scenario:
             return self.next_elem < max_elems and not getattr(self, "disconnected", False)
         if c == "X":
             return bool(self.cfg.get("disconnect")) and not getattr(self, "disconnected", False) and self.next_elem > 0
+        if c == "Y":
+            return bool(self.cfg.get("reconnect")) and getattr(self, "disconnected", False)
         if c == "d":
             return bool(log.pending)
         if c == "D":
@@ -309,7 +321,7 @@ class Scenario:
         held = any(o.get(k) for k in ("q", "buf", "bufs", "qsize")) or bool(o.get("putters"))
         unfinished = any(e not in self.log.emit_done for e in self.log.emits)
         k = self.cfg["kind"]
-        if k in ("rate_limit", "delay", "latest", "map_async", "partition"):
+        if k in ("rate_limit", "delay", "latest", "map_async", "partition", "timed_window"):
             delivered = set()
             for ev in self.log.ev:
                 if ev["ev"] == "deliver":
@@ -376,6 +388,8 @@ def alphabet(cfg):
         al += ["f", "F"]
     if cfg.get("disconnect"):
         al += ["X"]
+    if cfg.get("reconnect"):
+        al += ["Y"]
     if cfg.get("fine"):
         al += ["t"]          # single callbacks instead of whole iterations: emissions / completions fall between two callbacks
     if cfg.get("faults") and k == "map_async":
@@ -414,7 +428,7 @@ def enumerate_schedules(cfg, depth, limit, rng):
 
 def random_schedules(cfg, count, maxlen, rng):
     al = alphabet(cfg)
-    w = {"e": 3, "s": 4, "d": 2, "D": 1, "a": 2, "w": 1, "f": 2, "F": 1, "x": 1, "g": 2, "t": 6, "X": 1}
+    w = {"e": 3, "s": 4, "d": 2, "D": 1, "a": 2, "w": 1, "f": 2, "F": 1, "x": 1, "g": 2, "t": 6, "X": 1, "Y": 2}
     out = []
     for _ in range(count):
         n = rng.randint(4, maxlen)
